@@ -141,10 +141,10 @@ func Iterate(obj Object, fn func(Object) bool) error {
 		}
 		for {
 			item, err := Next(iterator)
-			if err == StopIteration {
-				break
-			}
 			if err != nil {
+				if IsException(StopIteration, err) {
+					break
+				}
 				return err
 			}
 			if fn(item) {
